@@ -329,7 +329,15 @@ TLA_CP = "/opt/veriftools/tla/tla2tools.jar:/opt/veriftools/tla/CommunityModules
 
 
 def tlc_cmd(spec_file, cfg, metadir, workers=1, extra=(), xmx="3g", gc="-XX:+UseSerialGC"):
-    return ["java", gc, "-Xss1g", f"-Xmx{xmx}", "-cp", TLA_CP, "tlc2.TLC", "-workers", str(workers),
+    # TLC unpacks its standard modules into a fresh java.io.tmpdir/tlc-* directory on every start and never removes it:
+    # keep them under out/jtmp/<pid of this check> (removed when the check exits; per process, so that checks running
+    # side by side never touch each other's files) instead of littering /tmp
+    jtmp = os.path.join(OUT, "jtmp", str(os.getpid()))
+    if not os.path.isdir(jtmp):
+        os.makedirs(jtmp, exist_ok=True)
+        import atexit
+        atexit.register(shutil.rmtree, jtmp, True)
+    return ["java", gc, "-Xss1g", f"-Xmx{xmx}", f"-Djava.io.tmpdir={jtmp}", "-cp", TLA_CP, "tlc2.TLC", "-workers", str(workers),
             "-metadir", metadir, "-cleanup", "-noGenerateSpecTE", "-config", cfg] + list(extra) + [spec_file]
 
 
